@@ -205,6 +205,8 @@ func init() {
 		gen.CheckKinds(c.Run, c.Prog)
 		kindsTable(c)
 		gen.CheckDestKinds(c.Run, c.Prog)
+		// a type text follows a later re-aliasing of its package only through the registry's own *Package
+		gen.CheckVarNameOwners(c.Run, c.Prog)
 		// the qualifier of the self-check line is final only after the last registration: G-MOCK/qualifier-final,
 		// read off the interpretation of Mock (engine M)
 	})
@@ -215,6 +217,8 @@ func init() {
 		gen.CheckKinds(c.Run, c.Prog)
 		kindsTable(c)
 		destinationTables(c)
+		// the import block and the qualifiers in the type texts read the same *Package values
+		gen.CheckVarNameOwners(c.Run, c.Prog)
 		c.Run.Floor("G-MOCK/qualifier-final", 1)
 		c.RunSkeletons(SkelOpts{Rules: []string{"K-IMPORTS", "G-DATA/imports", "G-MOCK/qualifier-final"}})
 	})
